@@ -146,6 +146,31 @@ RootAtOk(r) ==
   /\ UNCHANGED <<nodes, nextN, nextE, eObj>> /\ Ghost
 RootAt(r) == IF r \in nodes /\ Valid THEN RootAtOk(r) ELSE Raise    \* (the cache stays false when refused)
 
+\* setOutGroup(g): "set a node as a new outgroup in a rooted tree, will make a root between
+\* the given node and its father": a fresh node R is put on the link father(g) - g (two fresh
+\* edges replace it; its object goes with it) and the tree is re-rooted at R.  Nothing else
+\* is promised, so nothing else changes (the former root stays as an ordinary node).
+\* Refused, unchanged: un-rooted or invalid tree, absent node, g is the root.
+OutGroupPre(g) == directed /\ Valid /\ g \in nodes /\ HasFather(edges, g)
+SetOutGroupOk(g) ==
+  /\ OutGroupPre(g) /\ nextN < MaxN /\ nextE + 1 < MaxE
+  /\ LET f == Father(edges, g)
+         e == EdgeToFather(edges, g)
+         E1 == WithEdge(WithEdge(Restrict(edges, DOMAIN edges \ {e}), nextE, f, nextN), nextE + 1, nextN, g)
+     IN /\ edges' = Reroot(E1, nextN)
+        /\ eObj' = Restrict(eObj, DOMAIN eObj \ {e})
+  /\ nodes' = nodes \cup {nextN} /\ root' = nextN /\ nextN' = nextN + 1 /\ nextE' = nextE + 2
+  /\ Inval("SetOutGroup") /\ res' = "ok" /\ op' = <<"SetOutGroup", None>>
+  /\ UNCHANGED directed /\ Ghost
+SetOutGroup(g) == IF OutGroupPre(g) THEN SetOutGroupOk(g) ELSE Raise
+
+\* removeSons(n): all the links n -> son go (with their objects)
+RemoveSons(n) ==
+  IF n \in nodes
+  THEN /\ DropEdges(OutE(edges, directed, n)) /\ Inval("RemoveSons") /\ res' = "ok" /\ NoOp
+       /\ UNCHANGED <<directed, nodes, nextN, nextE, root>> /\ Ghost
+  ELSE Raise
+
 \* unRoot(FALSE): forget the orientation (refused when a reciprocal pair exists)
 \* unRoot(TRUE) : the root must have exactly two sons; they get linked to each
 \*                other, the root is detached (it stays as a node), one of the
@@ -192,6 +217,8 @@ Next ==
   \/ \E n \in NodeIds : SetRoot(n)
   \/ \E n \in NodeIds : RootAt(n)
   \/ \E n \in NodeIds : QSub(n)
+  \/ \E n \in NodeIds : SetOutGroup(n)
+  \/ \E n \in NodeIds : RemoveSons(n)
   \/ \E j \in BOOLEAN : UnRoot(j)
   \/ QValid
   \/ QStruct
@@ -217,6 +244,22 @@ RerootKeeps ==
         /\ eObj' = eObj                                                         \* same attached objects
         /\ Fatherless(nodes', edges') = {root'}                                 \* unique father-less node
         /\ directed' /\ valid']_vars                                            \* rooted and still valid
+
+\* (2b) setOutGroup(g): the new root sits between g and its former father, the tree is
+\*      valid and rooted there, every other link keeps its id and its object
+OutGroupKeeps ==
+  [][(op'[1] = "SetOutGroup" /\ res' = "ok") =>
+        LET R == root'
+            g == CHOOSE x \in nodes : (\E e \in DOMAIN edges' : edges'[e] = <<R, x>>) /\ HasFather(edges, x)
+                                        /\ (\E e \in DOMAIN edges' : edges'[e] = <<R, Father(edges, x)>>)
+            f == Father(edges, g)
+            cut == EdgeToFather(edges, g)
+        IN /\ valid /\ directed /\ R \notin nodes /\ nodes' = nodes \cup {R}
+           /\ valid' /\ directed' /\ Fatherless(nodes', edges') = {R}
+           /\ Sons(edges', R) = {g, f}
+           /\ \A e \in DOMAIN edges \ {cut} : e \in DOMAIN edges' /\ Unordered(edges'[e]) = Unordered(edges[e])
+           /\ DOMAIN edges' \ DOMAIN edges = {nextE, nextE + 1} /\ cut \notin DOMAIN edges'
+           /\ eObj' = Restrict(eObj, DOMAIN eObj \ {cut})]_vars
 
 \* (3) an edge object given to addSon / setFather sits on the new link
 \*     (the new link has the fresh id nextE)
